@@ -217,6 +217,16 @@ class CallMixin:
 
     # ------------------------------------------------------------------ calls
     def ev_Call(self, node, st, ctx):
+        key = getattr(self, "site_map", {}).get(id(node))
+        if key is not None and not ctx.spec:
+            for i, spec in enumerate(self.cur_contract.sites[key]):
+                if spec == "sort_key_injective":
+                    continue  # generated by the sort model itself
+                g = self.ev_spec(spec, st, old=self.entry, labels=self.labels)
+                self.oblige(st, ctx, g, "site", "site[%s][%d]" % (key, i), node, "at call '%s': %s" % (key, spec))
+        return self.ev_Call_(node, st, ctx)
+
+    def ev_Call_(self, node, st, ctx):
         f = node.func
         d = self.dotted(f) if isinstance(f, (ast.Attribute, ast.Name)) else None
         if d is not None:
@@ -534,6 +544,7 @@ class CallMixin:
         x = self.ev(node.args[0], st, ctx)
         if x.ty.kind != "list":
             raise Unsupported("sorted(%r)" % x.ty)
+        self.sort_key_obligation(node, x.ty.args[0], st, ctx)
         r = st.new_ref()
         n = st.list_len(x.ty, x.t)
         el = z3.Const(fresh_name("sorted"), z3.ArraySort(I, x.ty.args[0].sort()))
@@ -681,7 +692,7 @@ class CallMixin:
         m = st.list_len(x.ty, x.t)
         e2 = st.list_elems(x.ty, x.t)
         j = z3.Int(fresh_name("j"))
-        st.set_list(base.ty, base.t, n + m, z3.Lambda([j], z3.If(j < n, e[j], e2[j - n])))
+        st.set_list(base.ty, base.t, n + m, self.named_array(st, j, z3.If(j < n, e[j], e2[j - n]), "ext"))
         return mk_none()
 
     def obj_equal(self, ty, a, b, st):
@@ -723,6 +734,69 @@ class CallMixin:
         st.ghost["_removed_%d" % node.lineno] = mk_int(p)
         return mk_none()
 
+    def sort_key_obligation(self, node, ety, st, ctx):
+        """the key of a sort is injective on the elements: key(x) == key(y) implies x == y, so that the sorted list is
+        determined by the multiset of elements (no input order leaks through ties).  Key components the subset cannot
+        evaluate are abstracted as uninterpreted functions of the element (sound for the proof direction)."""
+        key = getattr(self, "site_map", {}).get(id(node))
+        if key is None or "sort_key_injective" not in self.cur_contract.sites[key]:
+            return
+        kf = None
+        for k in node.keywords:
+            if k.arg == "key":
+                kf = k.value
+        x = z3.Const(fresh_name("kx"), ety.sort())
+        y = z3.Const(fresh_name("ky"), ety.sort())
+        if kf is None or (isinstance(kf, ast.Constant) and kf.value is None):
+            same = x == y
+        else:
+            if not isinstance(kf, ast.Lambda) or len(kf.args.args) != 1:
+                raise Unsupported("sort key that is not a one-parameter lambda (line %s)" % node.lineno)
+            pname = kf.args.args[0].arg
+            comps = kf.body.elts if isinstance(kf.body, ast.Tuple) else [kf.body]
+            U = z3.DeclareSort("KeyPart")
+            eqs = []
+            for cnode in comps:
+                vals = []
+                for v in (x, y):
+                    st2 = st.copy()
+                    st2.writes = None
+                    st2.locals[pname] = SV(ety, v)
+                    try:
+                        sv = self.ev(cnode, st2, ctx)
+                        if sv.ty.kind in ("tuple", "gen", "fun"):
+                            raise Unsupported("structured key component")
+                        vals.append(box(sv))
+                    except Unsupported:
+                        free = {n.id for n in ast.walk(cnode) if isinstance(n, ast.Name) and n.id in st.locals and n.id != pname}
+                        if free:
+                            raise Unsupported("sort key component reads locals %r (line %s)" % (sorted(free), node.lineno))
+                        uf = z3.Function("KEYPART<%s>" % ast.unparse(cnode), ety.sort(), U)
+                        self.notes.add("sort key component %r abstracted as an uninterpreted function of the element" % ast.unparse(cnode))
+                        vals.append(uf(v))
+                eqs.append(vals[0] == vals[1] if vals[0].sort() == vals[1].sort() else z3.BoolVal(False))
+            same = z3.Implies(z3.And(*eqs), x == y)
+        self.oblige(st, ctx, same, "site", "site[%s][sort_key_injective]" % key, node,
+                    "at call '%s': the sort key is injective on the elements (key(x) == key(y) implies x == y)" % key)
+
+    def m_list_sort(self, base, node, st, ctx):
+        """list.sort(key=..., reverse=...): same length and the same members, in place; the order itself is left
+        unspecified (nothing proved may depend on it)"""
+        if node.args:
+            raise Unsupported("list.sort with positional arguments")
+        ety = base.ty.args[0]
+        self.sort_key_obligation(node, ety, st, ctx)
+        n = st.list_len(base.ty, base.t)
+        mo = self.list_mem(st, base.ty, base.t)
+        el = z3.Const(fresh_name("sorted"), z3.ArraySort(I, ety.sort()))
+        st.set_list(base.ty, base.t, n, el)
+        mn = self.list_mem(st, base.ty, base.t)
+        st.assume(mo == mn)
+        if ety.is_ref:
+            j = z3.Int(fresh_name("j"))
+            st.assume(z3.ForAll([j], z3.Implies(z3.And(0 <= j, j < n), z3.And(0 <= el[j], el[j] < st.alloc)), patterns=[el[j]]))
+        return mk_none()
+
     def m_list_copy(self, base, node, st, ctx):
         r = st.new_ref()
         st.set_list(base.ty, r, st.list_len(base.ty, base.t), st.list_elems(base.ty, base.t))
@@ -761,7 +835,7 @@ class CallMixin:
         s, sep = x.py
         r = st.new_ref()
         j = z3.Int(fresh_name("j"))
-        st.set_list(List(STR), r, self.split_len(s, sep, st), z3.Lambda([j], self.split_at(s, sep, j)))
+        st.set_list(List(STR), r, self.split_len(s, sep, st), self.named_array(st, j, self.split_at(s, sep, j), "split"))
         return SV(List(STR), r)
 
     def m_str_join(self, base, node, st, ctx):
